@@ -153,10 +153,22 @@ def consumers(ctx, rule='A5c'):
            'the full vector takes the fixed value at fixed positions and consumes the given vector in order at '
            'the others', t[:160])
     m, t = src('get_graph')
-    ok = t.count('if i not in self._fixed_values') >= 2
-    ctx.ob(rule, fkey(m, rule, 'decode-output-filter'), ok, m.where,
-           'decode returns values and activeness of the non-fixed variables only (both lists filtered by the '
-           'same test)', '')
+    # the returned values and activeness cover the non-fixed variables only: somewhere in get_graph or the private
+    # helpers it calls, membership in the fixed-value table decides what is kept (a filter `if i not in fixed`, a
+    # `continue` under `i in fixed`, a list of free indices)
+    def _fixed_tests(f_):
+        alias = {norm(a.targets[0]) for a in walk_fn(f_) if isinstance(a, ast.Assign) and
+                 norm(a.value) == 'self._fixed_values'} | {'self._fixed_values'}
+        return [c for c in walk_fn(f_) if isinstance(c, ast.Compare) and len(c.ops) == 1 and
+                isinstance(c.ops[0], (ast.In, ast.NotIn)) and norm(c.comparators[0]) in alias]
+    tests = [(f_, c) for f_ in unit_functions(ctx.prog, m) for c in _fixed_tests(f_)]
+    # ... of which at least one governs the construction of the returned lists (it is not the is_fixed flag store)
+    governing = [(f_, c) for f_, c in tests if not any(
+        isinstance(a, ast.Assign) and a.value is c and isinstance(a.targets[0], ast.Subscript) for a in walk_fn(f_))]
+    ctx.ob(rule, fkey(m, rule, 'decode-output-filter'), bool(governing), m.where,
+           'decode returns values and activeness of the non-fixed variables only (what is returned is selected by '
+           'membership in the fixed-value table)',
+           '; '.join(f'{f_.qualname} L{c.lineno} `{short(c)}`' for f_, c in governing[:3]) or 'no such test')
     ok = 'is_fixed[i_dec] = i_dv in self._fixed_values' in t
     ctx.ob(rule, fkey(m, rule, 'decode-is-fixed-flags'), ok, m.where,
            'the analyzer is told which selection choices are fixed (so that correction never moves them)', '')
